@@ -253,3 +253,16 @@ package ingest
 //@   loop 1 invariant i >= 0
 //@   loop 2 invariant rangeindex >= -1
 //@   ensures implies(result == nil, a.AreaID.IsValid())
+
+// ---- C24: key lookup in a collection feature ------------------------------------------------
+// With keys the comparison functions accept, and - when the feature says it is sorted - keys
+// in non-decreasing order, FindValue finds a value exactly when some key equals the wanted
+// one, and the value returned belongs to such a key. The binary-search branch and the
+// linear branch therefore agree on whether the key is present.
+//@ func (*CollectionFeature).FindValue
+//@   requires c != nil && len(c.Keys) == len(c.Values)
+//@   requires forall(i, 0, len(c.Keys), b6.VerifComparable(c.Keys[i], key))
+//@   requires implies(c.sorted, forallpair(p, q, 0, len(c.Keys), implies(p < q, b6.VerifAnyRank(c.Keys[p]) <= b6.VerifAnyRank(c.Keys[q])), c.Keys[p], c.Keys[q]))
+//@   loop 1 invariant rangeindex >= -1 && forall(j, 0, rangeindex+1, b6.VerifAnyRank(c.Keys[j]) != b6.VerifAnyRank(key))
+//@   ensures forall(i, 0, len(c.Keys), implies(b6.VerifAnyRank(c.Keys[i]) == b6.VerifAnyRank(key), result1))
+//@   ensures implies(result1, exists(j, 0, len(c.Keys), b6.VerifAnyRank(c.Keys[j]) == b6.VerifAnyRank(key) && result0 == c.Values[j]))
